@@ -5,7 +5,7 @@
    succeed), list elements through their struct view, data through [slice].  The relation
    does not look at the depth limit or the list-member flag of [p] (den_core).
    No proofs about Equal in this file. *)
-From CV Require Export Value.ValueEq.
+From CV Require Export Value.ValueEq Core.ReaderFacts.
 Open Scope Z_scope.
 
 (* the struct view of element i of a (non-bit) list: what List.Struct(i) designates *)
@@ -26,7 +26,7 @@ Inductive den (strict : bool) (m : segs) (mid : Z) (caps : list Z) : Ptr -> valu
     p_valid p = true -> p_kind p = KIface -> 0 <= p_len p ->
     den strict m mid caps p (VCap (mk_capv mid caps (p_len p)))
 | den_struct p d vs :
-    p_valid p = true -> p_kind p = KStruct ->
+    p_valid p = true -> p_kind p = KStruct -> wf_size (p_size p) ->
     slice (seg_of m p) (p_off p) (DataSize (p_size p)) = Ok d ->
     zlen vs = PointerCount (p_size p) ->
     (forall i, 0 <= i < PointerCount (p_size p) ->
@@ -40,7 +40,7 @@ Inductive den (strict : bool) (m : segs) (mid : Z) (caps : list Z) : Ptr -> valu
     den strict m mid caps p (VBits (bits_of (Z.to_nat (p_len p)) d))
 | den_comp p vs :
     p_valid p = true -> p_kind p = KList -> p_bit p = false -> p_comp p = true ->
-    zlen vs = p_len p ->
+    wf_size (p_size p) -> zlen vs = p_len p ->
     (forall i, 0 <= i < p_len p -> den strict m mid caps (elem_ptr p i) (nthv vs i)) ->
     den strict m mid caps p (VList LComp vs)
 | den_ptrs p vs :
